@@ -198,6 +198,53 @@ def sym_stream_func(vc):
         check_no_commit_on_incomplete(vc, fk, paths, ('close', 'os.rename'), 'stream.func[%s]' % file_kind)
 
 
+def sym_stream_faulty(vc):
+    """stream under an I/O fault: file.write / file.flush of the active file may fail with OSError (disk full, quota, EIO).
+    A record that could not be written must not go unnoticed: write(), res_writer and func let the error out (so the run fails
+    and the active file is never renamed); whenever they return normally every record they were given reached the file."""
+    import z3
+    from pyvc.api import LoopSpec, check, cover, yields_of, row_stream
+    from pyvc.symex import PyExc, Ev
+    from pyvc import lib
+    fk = vc.under_contract(P + 'stream.py', ['stream', 'write'])
+    for target in ('write', 'res_writer', 'func'):
+        def thunk(it, target=target):
+            func, evs0, file = open_stream(it, 'path')
+            handle = calls(evs0, target='open')[0].result
+            log = []
+            budget = [1]
+
+            def faulty(method):
+                def call(it_, o, a, k):
+                    it_.emit(Ev('Call', target=o, method=method, args=tuple(lib.snap(it_, x) for x in a), kwargs={}, result=None, objs=tuple(a)))
+                    if budget[0] > 0 and it_.decide(2, lambda i: True) == 1:
+                        budget[0] -= 1
+                        log.append(method)
+                        raise PyExc(lib.ExcV('OSError', ('No space left on device',)))
+                    return None
+                return call
+            handle.attrs['call:write'] = faulty('write')
+            handle.attrs['call:flush'] = faulty('flush')
+            tag = '[%s]' % target
+            try:
+                if target == 'write':
+                    it.call(func.env.lookup('write'), [it.fresh_row('record')])
+                elif target == 'res_writer':
+                    it.loops['res_writer#L0'] = LoopSpec()
+                    it.run_generator(it.call(func.env.lookup('res_writer'), [row_stream(it, 'rows')]))
+                else:
+                    it.loops['func#L0'] = LoopSpec()
+                    it.run_generator(it.call(func, [mk_package2(it)]))
+            except PyExc as pe:
+                check(it, 'a-failed-write-surfaces-as-the-os-error' + tag, pe.exc.cls == 'OSError' and bool(log))
+                check(it, 'nothing-committed-after-a-failed-write' + tag, not calls(it.path.events, target='os.rename'))
+                cover(it, 'fault-reachable' + tag)
+                return
+            check(it, 'normal-return-means-every-record-reached-the-file' + tag, not log)
+            cover(it, 'return-reachable' + tag)
+        vc.explore(fk, thunk, min_paths=2)
+
+
 def check_no_commit_on_incomplete(vc, fk, paths, commit_names, tag, also_iter_end=True):
     """every explored path that does not reach normal completion (abandoned at a yield, upstream raised, cut at the end of
     an iteration) must contain none of the commit events"""
@@ -444,10 +491,21 @@ def sym_finalizer(vc):
     from pyvc.api import real_function, check, cover, ufunc, Builtin, Stream, Opaque, yields_of
     fk = vc.under_contract(P + 'finalizer.py', ['finalizer', 'get_iterator', 'func'])
     vc.under_contract(P + 'finalizer.py', ['finalizer', '__init__'])
-    for with_stats in (False, True):
-        def thunk(it, with_stats=with_stats):
+    from pyvc.symex import PyExc
+    from pyvc import lib
+    for with_stats, failing in ((False, False), (True, False), (True, True), (False, True)):
+        def thunk(it, with_stats=with_stats, failing=failing):
             F = real_function(it, 'dataflows.processors.finalizer', 'finalizer')
             cb = ufunc('callback', pure=False, params=(['stats'] if with_stats else []))
+            if failing:
+                # a callback that runs (its side effects happen) and then fails -- with a TypeError of its own, which must not
+                # be mistaken for "does not accept the argument": it still fires exactly once and its error gets out
+                inner = cb.apply
+
+                def apply(it_, a, k):
+                    inner(it_, a, k)
+                    raise PyExc(lib.ExcV('TypeError', ("unsupported operand type(s) for %: 'str' and 'NoneType'",)))
+                cb.apply = apply
             fin = it.call(F, [cb])
             # the base class iterator is under its own contract (C01): here an opaque stream of resources
             base_stream = Stream('base_res_iter', lambda it_: mk_resource(it_, 'r'), may_raise=True)
@@ -458,6 +516,21 @@ def sym_finalizer(vc):
             ds.attrs['call:merge_stats'] = lambda it_, obj, a, k: 'MERGED-STATS'
             func = it.call(it.lib.getattr_(it, fin, 'get_iterator'), [ds])
             n0 = len(it.path.events)
+            if failing:
+                try:
+                    it.run_generator(it.call(func, []))
+                    raised = None
+                except PyExc as pe:
+                    raised = pe
+                evs = it.path.events[n0:]
+                if [e for e in evs if e.kind == 'YieldFrom'] and calls(evs, target='callback'):
+                    check(it, 'a-failing-callback-fired-exactly-once[stats=%s]' % with_stats, len(calls(evs, target='callback')) == 1)
+                    check(it, 'the-callbacks-own-error-gets-out[stats=%s]' % with_stats, raised is not None and raised.exc.cls == 'TypeError')
+                    cover(it, 'failing-callback-reachable[stats=%s]' % with_stats)
+                    return
+                if raised is not None:
+                    raise raised
+                return
             it.run_generator(it.call(func, []))
             evs = it.path.events[n0:]
             names = effect_names(evs)
@@ -474,8 +547,9 @@ def sym_finalizer(vc):
         # the consumer may stop, or the base iterator may raise, while rows are being delegated: the callback must not have
         # fired on any such path ("exactly once, AFTER the last row has passed")
         paths = vc.explore(fk, thunk, min_paths=2, explore_abandon=True)
-        expect_no_raise_or_same(vc, fk, paths)
-        check_no_commit_on_incomplete(vc, fk, paths, ('callback',), 'finalizer[stats=%s]' % with_stats)
+        if not failing:
+            expect_no_raise_or_same(vc, fk, paths)
+            check_no_commit_on_incomplete(vc, fk, paths, ('callback',), 'finalizer[stats=%s]' % with_stats)
 
 
 # ------------------------------------------------------------------------------------------------ base class
